@@ -16,5 +16,6 @@ RootF  == { <<1>>, <<2>> }
 \* nested faulty-agent universe: an instance and the object above it, so that the agent can answer with a proper prefix
 \* of the requested OID (a smaller OID that "contains" it)
 CandFN == { <<1,1>>, <<1,1,1>>, <<2,1>> }
+FRangeN == CandFN \cup { <<1>> }          \* ... or with the walk root itself
 RootListsOf(RC, k) == { r \in UNION { [1..i -> RC] : i \in 1..k } : PairwiseDisjoint(r) }
 ====
